@@ -96,7 +96,7 @@ package proxy
 // the lock is released on every exit, at most one pre-existing counter changes (by exactly `value`), and a
 // non-zero report is never lost. The slot used for idx is an implementation detail the contract does not fix.
 //@ contract (*ReplicationStreamObserver).ReportStreamValue
-//@   props C20
+//@   props C20 C07
 //@   requires s.wf()
 //@   ensures  @wf: s.wf()
 //@   ensures  @unlocked: !held(s.streamGrowLock)
@@ -635,13 +635,13 @@ package proxy
 //@   assigns nothing
 
 //@ contract (*shardManagerImpl).DeliverMessagesToShardOwner
-//@   props C09 C08
+//@   props C09 C08 C04 C02
 //@   requires routedMsg != nil && goodMsg(deref(routedMsg))
 //@   ensures @exactly_once_iff_true: result <==> ($sends + (old(routedMsg.Resp).sentOn - old(routedMsg.Resp.sentOn)) == 1)
 //@   ensures @never_twice: $sends + (old(routedMsg.Resp).sentOn - old(routedMsg.Resp.sentOn)) <= 1
 //@   callpre sendReplicationMessages: @local_first: $sends == 0
 //@ contract (*shardManagerImpl).DeliverAckToShardOwner
-//@   props C09 C08
+//@   props C09 C08 C04 C01
 //@   requires routedAck != nil && routedAck.Req != nil
 // constructor invariant: acknowledgements are routed only in routing mode, where a memberlist configuration comes with an intra-proxy manager
 //@   requires sm.memberlistConfig != nil ==> sm.intraMgr != nil
